@@ -1,7 +1,7 @@
 """PDA workload generator."""
 import random
 
-STATES = {"str": ["q0", "q1", "q2", "q3"], "int": [0, 1, 2, 3],
+STATES = {"str": ["q0", "q1", "q2", "q3"], "int": list(range(16)),
           "reserved": ["#STARTTOFINAL#", "#ENDTOFINAL#", "#STARTEMPTYS#", "#ENDEMPTYS#0"],
           "tuple": [("p", 0), ("p", 1), (0, 0), (1,)], "mixed": [1, "1", 2, "2"]}
 STACK = {"str": ["Z", "X", "Y", "W"], "int": [0, 1, 2, 3],
@@ -33,8 +33,11 @@ def random_case(rng, max_states=3, max_stack=2, max_trans=6, max_push=3, vcs=Non
         if rng.random() < 0.2:
             c["perm"] = [rng.randrange(2) for _ in range(4)]        # different keys, equal hashes
             c["zperm"] = [rng.randrange(2) for _ in range(4)]
-    if rng.random() < 0.15:
+    r_ = rng.random()
+    if r_ < 0.15:
         c["form"] = "bulk"
+    elif r_ < 0.3:
+        c["form"] = "ctor"
     if rng.random() < 0.3:
         c["eps_form"] = rng.choice([1, 2])
     return c
@@ -77,6 +80,47 @@ def push_chain_case(rng, vcs=None):
     return c
 
 
+def many_states_case(rng):
+    """eleven to thirteen states (two-digit state numbers in anything numbered per state), few transitions, pushes of
+    at most two symbols, mostly epsilon moves so that the accepted words stay short"""
+    n = rng.randint(11, 13)
+    m = 2
+    trans = []
+    cur = 0
+    order = list(range(1, n))
+    rng.shuffle(order)
+    path = [0] + order[:rng.randint(3, 6)]
+    # a path from the start state that pushes once and pops twice, through far-apart state numbers
+    kinds = ["push"] + ["keep"] * (len(path) - 3) + ["pop", "pop"]
+    rng.shuffle(kinds)
+    depth = 1
+    stack = [0]
+    for i in range(len(path)):
+        nxt = path[i + 1] if i + 1 < len(path) else rng.randrange(n)
+        k = kinds[i] if i < len(kinds) else "keep"
+        top = stack[-1] if stack else 0
+        a = rng.randrange(2) if rng.random() < 0.35 else -1
+        if k == "push":
+            y = rng.randrange(m)
+            trans.append([path[i], a, top, nxt, [y, top]])
+            stack.append(y)
+        elif k == "pop" and stack:
+            trans.append([path[i], a, top, nxt, []])
+            stack.pop()
+        else:
+            trans.append([path[i], a, top, nxt, [top]])
+    for _ in range(rng.randint(2, 6)):
+        t = [rng.randrange(n), rng.randrange(2) if rng.random() < 0.5 else -1, rng.randrange(m), rng.randrange(n),
+             [rng.randrange(m) for _ in range(rng.choice([0, 1, 1, 2]))]]
+        if t not in trans:
+            trans.append(t)
+    c = {"n": n, "m": m, "k": 2, "trans": trans, "start": 0, "zstart": 0,
+         "finals": [s for s in range(n) if rng.random() < 0.15], "vc": "int"}
+    if rng.random() < 0.5:
+        c["shuffle"] = rng.randrange(1 << 30)
+    return c
+
+
 def sval(c, i):
     if c["vc"] == "inject":
         from vf.values import K
@@ -100,6 +144,21 @@ def build(c):
     tr = list(c["trans"])
     if "shuffle" in c:
         random.Random(c["shuffle"]).shuffle(tr)
+    if c.get("form") == "ctor":
+        # everything handed to the constructor: sets of raw values and a ready-made transition function whose State /
+        # Symbol / StackSymbol objects were created separately (equal to, but not the same objects as, the PDA's own)
+        from pyformlang.pda import State, Symbol as PSym, StackSymbol, Epsilon as PEps
+        from pyformlang.pda.transition_function import TransitionFunction
+        tf = TransitionFunction()
+        for q, a, X, r, push in tr:
+            tf.add_transition(State(sval(c, q)), PEps() if a < 0 else PSym(INPUTS[a]), StackSymbol(zval(c, X)),
+                              State(sval(c, r)), [StackSymbol(zval(c, y)) for y in push])
+        sts = {sval(c, q) for q, _, _, _, _ in tr} | {sval(c, r) for _, _, _, r, _ in tr} | \
+            {sval(c, c["start"])} | {sval(c, f) for f in c["finals"]}
+        zs = {zval(c, X) for _, _, X, _, _ in tr} | {zval(c, y) for t in tr for y in t[4]} | {zval(c, c["zstart"])}
+        return PDA(states=sts, input_symbols={INPUTS[a] for _, a, _, _, _ in tr if a >= 0}, stack_alphabet=zs,
+                   transition_function=tf, start_state=sval(c, c["start"]), start_stack_symbol=zval(c, c["zstart"]),
+                   final_states={sval(c, f) for f in c["finals"]})
     from pyformlang.pda import Epsilon, Symbol
     # the three accepted spellings of an epsilon move: the text, the Epsilon object, a Symbol carrying the text
     eps = {1: Epsilon(), 2: Symbol("epsilon")}.get(c.get("eps_form", 0), "epsilon")
